@@ -62,4 +62,23 @@ def jKVs (j : Json) : List (String × Json) :=
   | .obj kvs => kvs.toList
   | _ => []
 
+/-- an eviction that arrives while a partial update of the same (merge) type is being applied: both are single steps of the
+model (they hold the manager lock), so in either order the evicted name ends up neither cached nor subscribed, and the
+updated name carries the update's content -/
+def checkEvictDuringUpdate (pid : String) (j : Json) : Except String Verdict := do
+  let o ← j.getObjVal? "obs"
+  let rt := jStrD j "rt" "?"
+  let cached := jBoolD o "idleCached" false
+  let sub := jBoolD o "idleSubscribed" false
+  let inside := jBoolD o "evictionRanInsideTheUpdate" false
+  let hang := jBoolD o "hang" false
+  let busy := jStrD o "busy" ""
+  let ok := !cached && !sub && !hang && busy = "busy#2"
+  let pfx := if pid = "C07" then "C07.explained_by_a_sequential_order" else "C01.cached_is_subscribed"
+  return { nontrivial := jStrD o "order" "" = "update parked in its handler"
+           mismatch := if ok && !inside then none else some s!"eviction during a partial {rt} update: model: the two exclude each other, the evicted name ends up neither cached nor subscribed; impl: eviction ran inside the update={inside}, cached={cached}, subscribed={sub}, hang={hang}, updated name={busy}"
+           specfail := if ok then none
+                       else if hang then some s!"{pfx}: the eviction never returned"
+                       else some s!"{pfx}: an idle {rt} name was evicted (and unsubscribed) while a partial update that does not mention it was being applied; afterwards it is cached={cached}, subscribed={sub}: no order of the update and the eviction leaves it cached - the update wrote back a state it had read before the eviction" }
+
 end XdsVerif.Driver
